@@ -82,8 +82,19 @@ def expected_value(r):
 
 
 @untraced
-def roundtrip(field, s):
-    """-> list of violated clause names (empty = holds). Everything here is concrete."""
+def roundtrip(field, s, cfgrepo=False):
+    """-> list of violated clause names (empty = holds). Everything here is concrete.
+    cfgrepo: the process-wide Configuration.repository is SET while the documents are read back (it must not leak into a report read from a document)."""
+    from codelimit.common.Configuration import Configuration
+    saved_cfg = Configuration.repository
+    try:
+        return _roundtrip(field, s, cfgrepo, Configuration)
+    finally:
+        Configuration.repository = saved_cfg
+
+
+def _roundtrip(field, s, cfgrepo, Configuration):
+    Configuration.repository = None
     bad = []
     r = build(field, s)
     exp = expected_value(r)
@@ -102,6 +113,8 @@ def roundtrip(field, s):
             bad.append("file-order")
     if bad:
         return bad
+    if cfgrepo:
+        Configuration.repository = GithubRepository("cfg-owner", "cfg-name", "cfg-branch")
     for pretty in (True, False):
         try:
             r2 = ReportReader.from_json(docs[pretty])
@@ -140,21 +153,11 @@ def h_field(n: int, c0: int, c1: int, c2: int, cfgrepo: bool) -> bool:
     return fin(_with_cfg(FIELD, s, True if cfgrepo else False) == [], n == 2)
 
 
-@untraced
 def _with_cfg(field, s, cfgrepo):
-    """process-wide configuration must not leak into a report that is read back: Configuration.repository set / unset while reading"""
-    from codelimit.common.Configuration import Configuration
-    saved = Configuration.repository
-    Configuration.repository = GithubRepository("cfg-owner", "cfg-name", "cfg-branch") if cfgrepo else None
-    try:
-        f = roundtrip.__wrapped__ if hasattr(roundtrip, "__wrapped__") else roundtrip
-        return f(field, s)
-    finally:
-        Configuration.repository = saved
+    return roundtrip(field, s, cfgrepo)
 
 
 def real_h_field(n, c0, c1, c2, cfgrepo):
     s = "".join(POOL[c] for c in [c0, c1, c2][:n])
-    f = _with_cfg.__wrapped__ if hasattr(_with_cfg, "__wrapped__") else _with_cfg
-    bad = f(FIELD, s, cfgrepo)
+    bad = roundtrip.__wrapped__(FIELD, s, cfgrepo)
     return {"reproduced": bool(bad), "sig": f"report:{'+'.join(sorted(set(bad)))}", "detail": f"field {FIELD} = {s!r}: {bad}"}
